@@ -350,15 +350,16 @@ class PtySession:
         """scn: {opx, attr0, win, preload, enabled, swap, tmo(ticks), pred}.  `requests[i]` is the
         i-th request the terminal expects, `bursts[i]` its answer as (real delay s, bytes)."""
         res = {}
-        for attempt in range(4):
+        silent = 0
+        for attempt in range(5):
             try:
                 res = self._run_once(scn, list(requests), [list(b) for b in bursts], fault, sigint_after, limit, slack)
             except NoReturn:
                 # a call that really blocks does so again: only a second silence in a row counts
                 # (the session has been restarted)
-                if attempt or getattr(self, "_silent_once", None) == id(scn):
+                silent += 1
+                if silent > 1:
                     raise
-                self._silent_once = id(scn)
                 self.stalls = getattr(self, "stalls", 0) + 1
                 continue
             if res.get("stray_sigint"):
